@@ -1,8 +1,9 @@
 (* C19 at term level, the full statement of Properties/C19terms.v for the class `canonical`
-   of Proofs/TermRoundtripMain.v: atoms [a-z][A-Za-z0-9_]*, 64-bit integers, variables
+   of Proofs/TermRoundtripMain.v: atoms made of [A-Za-z0-9_] and inner blanks (not all digits),
+   64-bit integers, variables
    $[A-Za-z][A-Za-z0-9_]* (id 0) and $_, complex terms f(t1, ..., tn) (n >= 0, f not one of
-   join/add/subtract/multiply/divide, text of at most 1000 characters), lists [t1, ..., tn]
-   and [t1, ..., tn | $V] (n >= 1) in the well-formed node shape.  Floats are not covered.
+   join/add/subtract/multiply/divide, text of at most 1000 characters), lists [t1, ..., tn],
+   [t1, ..., tn | $V] and [t1, ..., tn | $_] (n >= 1) in the well-formed node shape.  Floats are not covered.
    The fuel is the one of C18: any fuel from parse_fuel (show_term t) = length + 2 on. *)
 From Suiron Require Import Model.ParseTerm Model.Show Spec.SpecLists Proofs.ParseTermProofs
   Proofs.ParseRoundtrip Proofs.TermRoundtrip Proofs.TermRoundtripText Proofs.TermRoundtripComplex
@@ -33,6 +34,10 @@ Check canonical_make_linked_list : forall ts last,
 Check canonical_make_linked_list_tail : forall ts v,
   ts <> [] -> (forall t, In t ts -> canonical t) -> simple_var v = true ->
   canonical (make_linked_list true (ts ++ [TVar 0 v])).
+
+Check canonical_make_linked_list_anon : forall ts,
+  ts <> [] -> (forall t, In t ts -> canonical t) ->
+  canonical (make_linked_list true (ts ++ [TAnon])).
 
 Print Assumptions C19_roundtrip_terms.
 Print Assumptions C19_terms_full_canonical.
